@@ -364,7 +364,7 @@ func safeCheck(p *Property, env *Env, c Case) (v Verdict) {
 }
 
 func shrink(p *Property, env *Env, c Case, v Verdict) (Case, Verdict) {
-	budget := 200
+	budget := 1500
 	for improved := true; improved && budget > 0; {
 		improved = false
 		for _, cand := range p.Shrink(c) {
